@@ -700,7 +700,7 @@ class SQLTranslator(ASTTranslator):
             aggr_ast = None
             if translator.groupby_monads or (
                     aggr_func_name == 'COUNT' and distinct
-                    and isinstance(translator.expr_type, EntityMeta)
+                    and isinstance(translator.expr_type, (EntityMeta, tuple))
                     and len(translator.expr_columns) > 1):
                 outer_alias = 't'
                 if aggr_func_name == 'COUNT' and not aggr_func_distinct:
